@@ -86,7 +86,13 @@ pub fn run(ctx: &mut Ctx) {
         for _ in 0..2 {
             let method = gen::METHODS[rng.below(3)];
             let params = if rng.chance(0.5) { ParamSpec::random(rng) } else { ParamSpec::random_custom(rng) };
-            let iters = *rng.pick(&[0u64, 1, 2, 3, 4, 5, 7, 10, 20, 40, 60]);
+            // long logged runs on tiny games: deviations that need many iterations (weights t^gamma
+            // for large t, averages dominated by late iterates, probabilities reaching exactly 1.0)
+            let long = idx % 20 == 7 && prep.flat.nodes.len() <= 30;
+            let iters = if long { *rng.pick(&[200u64, 500, 1000]) } else { *rng.pick(&[0u64, 1, 2, 3, 4, 5, 7, 10, 20, 40, 60]) };
+            if long {
+                ctx.count("long_logged_runs(T>=200)", 1);
+            }
             let threads = if rng.chance(0.3) { *rng.pick(&[2usize, 3, 4]) } else { 1 };
             let max_reg = if rng.chance(0.2) { rng.unit() * prep.flat.payoff_range() } else { 0.0 };
             let cfg = Cfg { method, iters, max_reg, threads, params };
@@ -139,7 +145,7 @@ pub fn run(ctx: &mut Ctx) {
         }
     });
     ctx.finish(crate::report::extra(
-        "cases = logged solves: G1/G2 games (<=150-400 nodes) x {Full, Sampled, External} x {None, five presets, random (alpha,beta,gamma,w) with coordinates from {-inf,-1e3,-5,-1,-0.5,0,0.5,1,1.5,2,5,1e3,+inf}} x T in {0..60} x threads {1,2,3,4} x threshold {0, random} x sampling {production, seeded, forced round-robin, forced rarest outcome}. For every pass the O3 step checker recomputes from the library's own previous state (hook H3) and the logged draws (H2) the regret and average-strategy increments the documented algorithm prescribes on the harness tree, then checks regret matching as a relation (proportional / uniform / some arg-max / some arg-min / softmax), the discounts t^a/(t^a+1), t^b/(t^b+1), the n^gamma weighting, the bound formula, termination against the threshold/budget, the returned average strategy, and that the visit log (H4) is exactly the prescribed set of decision nodes once each with at most one draw per infoset per pass. distinct = hash(tree, configuration, sampling); non-trivial = game has a decision infoset and at least one pass ran.",
+        "cases = logged solves: G1/G2 games (<=150-400 nodes) x {Full, Sampled, External} x {None, five presets, random (alpha,beta,gamma,w) with coordinates from {-inf,-1e3,-5,-1,-0.5,0,0.5,1,1.5,2,5,1e3,+inf}} x T in {0..60} (and 200-1000 on games of <= 30 nodes, one case in twenty) x threads {1,2,3,4} x threshold {0, random} x sampling {production, seeded, forced round-robin, forced rarest outcome}. For every pass the O3 step checker recomputes from the library's own previous state (hook H3) and the logged draws (H2) the regret and average-strategy increments the documented algorithm prescribes on the harness tree, then checks regret matching as a relation (proportional / uniform / some arg-max / some arg-min / softmax), the discounts t^a/(t^a+1), t^b/(t^b+1), the n^gamma weighting, the bound formula, termination against the threshold/budget, the returned average strategy, and that the visit log (H4) is exactly the prescribed set of decision nodes once each with at most one draw per infoset per pass. distinct = hash(tree, configuration, sampling); non-trivial = game has a decision infoset and at least one pass ran.",
         &["hooks report the solver's real state (snapshots are taken by the solve loops at quiescent points)",
           "tolerances: increments 1e-9 x (|R| + max|payoff| x nodes of the infoset), strategies 1e-12, softmax 1e-9; finite softmax weights may be applied to the regrets before or after discounting (documentation leaves it open)"],
     ));
